@@ -191,7 +191,7 @@ def driver_policy(beh, mod):
     os.replace(tmp, beh)
 
 
-def waker_policy(beh, both=None):
+def waker_policy(beh, both=None, one_stage=None):
     """The first record of an obs behaviour (`New`) carries the driver's waker policy in its spare field n: 0 = every poll
     uses a fresh waker, 1 = a subscriber is always polled with the same waker (what an executor does; exercises
     `will_wake`-style shortcuts).  Alternate by line; lines [both[0], both[1]) (complete trees) are run under both.
@@ -206,6 +206,7 @@ def waker_policy(beh, both=None):
                 continue
             b = json.loads(line)
             pols = (0, 1) if lo <= i < hi else (zlib.crc32(line.encode()) % 2,)
+            b[0]["two"] = 0 if one_stage and any(lo2 <= i < hi2 for lo2, hi2 in one_stage) else 1
             for pol in pols:
                 b[0]["n"] = pol
                 o.write(json.dumps(b, separators=(",", ":")) + "\n")
@@ -1485,29 +1486,39 @@ def async_pipeline(prop, tier, seed, work, t0):
     k, _ = gen_behaviours("GenObs", c, work, beh, "sim", num=40 if quick else 2000, depth=46, seed=seed + 3, tag="many", timeout=1500)
     n += k
     log("gen sync-spec many-subscriber walks: %d" % k)
-    # (b) behaviours with calls issued while guards are held (ObsAsync)
-    c = os.path.join(work, "GenAEdge.cfg")
-    write_cfg(c, spec="ASpec", constants=dict(a_mc, Depth=5 if quick else 6), view="View", constraints=["Bound"], action_constraints=["Edge"])
-    k, _ = gen_behaviours("GenObsAsync", c, work, beh, "edge", tag="aedge", workers=12, timeout=3000)
-    n += k
-    log("gen async edge: %d" % k)
-    # the waiting regime (FIFO queue of the lock, grants, next_ref's second acquisition): complete trees
-    for j, (subs_, d) in enumerate([({1}, 9 if quick else 10), ({1, 2}, 8 if quick else 9)]):
-        c = os.path.join(work, "GenAWait%d.cfg" % j)
-        write_cfg(c, spec="SpecAWait", constants=dict(NV=3, OwnerIds={1}, SubIds=subs_, WeakIds={1}, GuardIds={1}, Kinds={"shared"},
-                                                     FutIds={1, 2}, MaxQ=3, TwoStage={True}, Depth=d),
-                  constraints=["BoundTree"], invariants=["PrintAtDepth"])
-        k, _ = gen_behaviours("GenObsAsync", c, work, beh, "tree", tag="await%d" % j, workers=12, timeout=3000)
+    # (b) behaviours with calls issued while guards are held (ObsAsync), generated under BOTH admissible implementations of
+    #     next() (two lock acquisitions as today / one): a run whose assumption the implementation does not share is skipped
+    #     by the trace specification from the choice point on
+    one_stage = []
+    for two in (True, False):
+        tg = "2" if two else "1"
+        n0 = n
+        c = os.path.join(work, "GenAEdge%s.cfg" % tg)
+        write_cfg(c, spec="ASpec", constants=dict(a_mc, TwoStage={two}, Depth=5 if quick else 6), view="View", constraints=["Bound"],
+                  action_constraints=["Edge"])
+        k, _ = gen_behaviours("GenObsAsync", c, work, beh, "edge", tag="aedge" + tg, workers=12, timeout=3000)
         n += k
-        log("gen async wait tree %s: %d" % (sorted(subs_), k))
-    c = os.path.join(work, "GenASim.cfg")
-    write_cfg(c, spec="ASpec", constants=dict(NV=3, OwnerIds={1, 2, 3}, SubIds={1, 2, 3, 4}, WeakIds={1}, GuardIds={1, 2}, FutIds={1, 2},
-                                             Kinds={"unique", "shared"}, MaxQ=3, TwoStage={True}, Depth=40),
-              constraints=["BoundTree"], invariants=["PrintAtDepth"])
-    k, _ = gen_behaviours("GenObsAsync", c, work, beh, "sim", num=300 if quick else 20000, depth=41, seed=seed, tag="asim", timeout=1500)
-    n += k
-    log("gen async sim: %d" % k)
-    n = waker_policy(beh, wake_range)
+        log("gen async edge (next() %s-stage): %d" % (tg, k))
+        # the waiting regime (FIFO queue of the lock, grants, next_ref's second acquisition): complete trees
+        for j, (subs_, d) in enumerate([({1}, 9 if quick else 10), ({1, 2}, 8 if quick else 9)]):
+            c = os.path.join(work, "GenAWait%d%s.cfg" % (j, tg))
+            write_cfg(c, spec="SpecAWait", constants=dict(NV=3, OwnerIds={1}, SubIds=subs_, WeakIds={1}, GuardIds={1}, Kinds={"shared"},
+                                                         FutIds={1, 2}, MaxQ=3, TwoStage={two}, Depth=d),
+                      constraints=["BoundTree"], invariants=["PrintAtDepth"])
+            k, _ = gen_behaviours("GenObsAsync", c, work, beh, "tree", tag="await%d%s" % (j, tg), workers=12, timeout=3000)
+            n += k
+            log("gen async wait tree %s (next() %s-stage): %d" % (sorted(subs_), tg, k))
+        c = os.path.join(work, "GenASim%s.cfg" % tg)
+        write_cfg(c, spec="ASpec", constants=dict(NV=3, OwnerIds={1, 2, 3}, SubIds={1, 2, 3, 4}, WeakIds={1}, GuardIds={1, 2}, FutIds={1, 2},
+                                                 Kinds={"unique", "shared"}, MaxQ=3, TwoStage={two}, Depth=40),
+                  constraints=["BoundTree"], invariants=["PrintAtDepth"])
+        k, _ = gen_behaviours("GenObsAsync", c, work, beh, "sim", num=(300 if quick else 20000) // (1 if two else 2), depth=41,
+                              seed=seed + (0 if two else 5), tag="asim" + tg, timeout=1500)
+        n += k
+        log("gen async sim (next() %s-stage): %d" % (tg, k))
+        if not two:
+            one_stage.append((n0, n))
+    n = waker_policy(beh, wake_range, one_stage)
     trace = os.path.join(work, "trace.ndjson")
     hrc = run_harness(["obs-async-replay", beh, trace, "--nv", "3"])
     c = os.path.join(work, "TraceObsAsync.cfg")
